@@ -196,9 +196,16 @@ MUTANTS['C03'] = {
     'nolock-popitem': (_unlock("    def popitem(self):"), 'detect'),
     'nolock-clear': (_unlock("    def clear(self):"), 'detect'),
     'nolock-setdefault': (_unlock("    def setdefault(self, key, default=None):"), 'detect'),
-    'nolock-update': ([_NOLOCK, (CU, """        # E and F are throwback names to the dict() __doc__
-        with self._lock:""", """        # E and F are throwback names to the dict() __doc__
-        with _NOLOCK:""")], 'detect'),
+    'nolock-update': ([_NOLOCK, (CU, """        with self._lock:
+            if E is self:""", """        with _NOLOCK:
+            if E is self:""")], 'detect'),
+    'update-source-snapshot-without-its-lock': ([_NOLOCK, (CU, """            with E._lock:
+                E = list(dict.items(E))""", """            with _NOLOCK:
+                E = list(dict.items(E))""")], 'detect'),
+    'update-reads-source-under-own-lock': ([(CU, """            with E._lock:
+                E = list(dict.items(E))
+""", """            pass
+""")], 'detect'),
     'nolock-copy': ([_NOLOCK, (CU, """        # counts nor the ordering of this cache are disturbed
         with self._lock:""", """        # counts nor the ordering of this cache are disturbed
         with _NOLOCK:""")], 'detect'),
